@@ -45,6 +45,53 @@ def tref_str(t):
     return "[" + tref_str(t["list"]) + "]"
 
 
+# ------------------------------------------------------------------ enum internal values
+# How a code-built schema spells the internal (Python) values of an enum.
+# True: ints / lower-cased strings that are nobody's name; False: the names.
+# The other modes make internal values collide with member *names*: a default
+# given by internal value must be printed as the member holding that value,
+# never as the member whose name is spelled like it.
+ENUM_VALUE_MODES = ("rot", "swap", "partial", "self", "mixed")
+
+
+def enum_internal_values(names, mode):
+    """member name -> internal value"""
+    n = len(names)
+    plain = lambda i: i + 1 if i % 2 == 0 else names[i].lower() + "_"  # noqa: E731
+    if mode is False:
+        return {x: x for x in names}
+    if mode is True or mode is None:
+        return {x: plain(i) for i, x in enumerate(names)}
+    if mode == "rot":        # a permutation of the name set (every value is another member's name)
+        return {x: names[(i + 1) % n] for i, x in enumerate(names)}
+    if mode == "swap":       # pairwise swapped; an odd member out holds its own name
+        out = {}
+        for i, x in enumerate(names):
+            j = i + 1 if i % 2 == 0 else i - 1
+            out[x] = names[j] if j < n else x
+        return out
+    if mode == "partial":    # one collision only, the colliding name's own member holds a non-string
+        out = {x: plain(i) for i, x in enumerate(names)}
+        if n > 1:
+            out[names[0]] = names[1]
+            out[names[1]] = 2
+        else:
+            out[names[0]] = names[0]
+        return out
+    if mode == "self":       # first member holds its own name, the rest rotate
+        rest = names[1:]
+        out = {names[0]: names[0]}
+        for i, x in enumerate(rest):
+            out[x] = rest[(i + 1) % len(rest)]
+        return out
+    if mode == "mixed":      # non-string values next to colliding strings
+        out = {}
+        for i, x in enumerate(names):
+            out[x] = (10 + i) if i % 3 == 0 else (names[(i + 1) % n] if i % 3 == 1 else 2.5 + i)
+        return out
+    raise ValueError(mode)
+
+
 # ------------------------------------------------------------------ literals
 def lit_str(j):
     k = j["k"]
@@ -80,7 +127,7 @@ class Gen:
 
     # -------------------------------------------------------------- pieces
     def string(self):
-        pool = _ASCII_STRINGS if (self.ascii_only or self.c12) else _STRINGS
+        pool = _ASCII_STRINGS if self.ascii_only else _STRINGS
         return self.rng.choice(pool)
 
     def desc(self, p=0.35):
